@@ -164,6 +164,8 @@ def gen_scenario(rng):
     if kind == "send-fault":
         # place the fault on a later send as well
         scn["faults"] = {"0:send:%d" % rng.randrange(1 + len(pre), 5 + len(pre)): rng.choice([errno.ETIMEDOUT, errno.EINVAL, errno.ENOBUFS])}
+    if rng.random() < 0.2:
+        scn["adj"]["log_socket_errors"] = False
     scn["follow"] = follow
     scn["arrival"] = arrival
     return scn
